@@ -19,6 +19,8 @@ import Rooc.Proofs.ComposeExamples
 import Rooc.Proofs.ComposeE2EExamples
 import Rooc.Proofs.LinDExamples2
 import Rooc.Proofs.ComposeWF
+import Rooc.Proofs.ComposeSolver
+import Rooc.Proofs.ComposeSolverExamples
 namespace Rooc.Props.C03
 open Rooc Rooc.Sem Rooc.Ref Rooc.Exp
 
@@ -790,6 +792,86 @@ example (t : ℚ) (ht : 0 ≤ t) :
   simpa [exSrc, better_max] using this
 
 end EndToEnd
+
+/-! ### the default solver path: property C03 as stated, with microlp as the recorded assumption
+
+`Compose.oneShot solver m t maxSteps` is the one-shot pipeline after parsing (`Compile.linearize`, then `auto_solver`
+= `SolverWrap.wrapAuto` around the external solver's raw answer `solver lm`); `Compose.SolverSpec lm out`
+(`Rooc/Proofs/ComposeSolver.lean`) is the ASSUMPTION about microlp, stated on rooc's returned `LpSolution` after its own
+read-back: a solution labelled `Optimal` satisfies `LinOptimal` at `assignmentOf sol` and reports the linear objective
+there; `Err Infeasible` only when `LinInfeasible`.  It is an explicit hypothesis, not an axiom, and it is what
+C05's certified comparison / C04's certificate check validate per generated instance.  Under it, on every enumerable
+model that compiles under the contract, the pipeline's answer is the reference interpreter's verdict. -/
+section DefaultSolver
+open Rooc.SolverWrap (MlpOutcome Solution Res wrapAuto)
+
+/-- **property C03 for the default solver** (`_logic_partial`: the region of `c01_compile_logic_partial`): a returned
+solution satisfies the source model, its reported value is the optimum the reference computes (`min`/`max`) — or the
+reference finds a witness too (`satisfy`) —, and `Infeasible` is answered only when the reference says `infeasible`,
+i.e. when NO assignment satisfies the source. -/
+theorem c03_default_solver_logic_partial {solver : LinModel (Ext K) → MlpOutcome (Ext K)}
+    {m : Model (Ext K)} {t : K} (ht : 0 ≤ t) {maxSteps : Nat} {lm : LinModel (Ext K)}
+    (h : Compile.linearize m (.fin t) maxSteps = .ok lm)
+    (hm : LogicModel m m.domain) (hsh : AssertShape m) (hok : DeclOK m.domain)
+    (ht1 : t < 1 ∨ NoIntegerVars m.domain)
+    {asg : List (List (String × K))} (ha : assignments m.domain = some asg)
+    (hspec : SolverSpec lm (solver lm)) :
+    (∀ sol, oneShot solver m t maxSteps = .ok sol → sol.status = .optimal →
+      srcFeasible m (assignmentOf sol) = true ∧
+      (m.optType ≠ .satisfy → ∃ v w, refSolve m = .optimal v w ∧ sol.value = .fin v) ∧
+      (m.optType = .satisfy → ∃ w, refSolve m = .feasibleAny w)) ∧
+    (oneShot solver m t maxSteps = .err "Infeasible" →
+      refSolve m = .infeasible ∧ ∀ ρ : String → K, srcFeasible m ρ = false) := by
+  rw [oneShot_ok h]
+  obtain ⟨hinf, hopt⟩ := c03_answer_matches_reference_logic_partial ht h hm hsh hok ht1 ha
+  refine ⟨fun sol hsol hst => ?_, fun herr => ?_⟩
+  · obtain ⟨ho, w, hw, hobj⟩ := hspec.optimal sol hsol hst
+    refine ⟨src_of_lin (compilesTo_of_compile_logic ht h hm hsh hok ht1) ho.feasible, fun hne => ?_,
+      (hopt _ ho).2⟩
+    obtain ⟨v, wit, hr, hv⟩ := (hopt _ ho).1 hne
+    rw [hobj] at hv; cases hv
+    exact ⟨w, wit, hr, hw⟩
+  · have hi := hspec.infeasible herr
+    exact ⟨hinf hi, (c03_compile_infeasible_logic_partial ht h hm hsh hok ht1).mp hi⟩
+
+/-- the piecewise-linear fragment as a special case. -/
+theorem c03_default_solver_partial {solver : LinModel (Ext K) → MlpOutcome (Ext K)}
+    {m : Model (Ext K)} {t : K} (ht : 0 ≤ t) {maxSteps : Nat} {lm : LinModel (Ext K)}
+    (h : Compile.linearize m (.fin t) maxSteps = .ok lm)
+    (hm : FragModel true m m.domain) (hok : DeclOK m.domain)
+    (ht1 : t < 1 ∨ NoIntegerVars m.domain)
+    {asg : List (List (String × K))} (ha : assignments m.domain = some asg)
+    (hspec : SolverSpec lm (solver lm)) :
+    (∀ sol, oneShot solver m t maxSteps = .ok sol → sol.status = .optimal →
+      srcFeasible m (assignmentOf sol) = true ∧
+      (m.optType ≠ .satisfy → ∃ v w, refSolve m = .optimal v w ∧ sol.value = .fin v) ∧
+      (m.optType = .satisfy → ∃ w, refSolve m = .feasibleAny w)) ∧
+    (oneShot solver m t maxSteps = .err "Infeasible" →
+      refSolve m = .infeasible ∧ ∀ ρ : String → K, srcFeasible m ρ = false) :=
+  c03_default_solver_logic_partial ht h (LogicModel.ofFragModel hm) (assertShape_of_fragModel hm) hok ht1 ha hspec
+
+/-- non-vacuity (`K = ℚ`, every tolerance `t ≥ 0`, step limit 0): `min x s.t. c: x ≤ y`, `x, y` Boolean.  The pipeline
+returns the concrete `lmBool`; for the solver answer `outBool` the assumption `SolverSpec` HOLDS (`solverSpec_lmBool`),
+rooc hands back `solBool`, and the theorem concludes: that solution satisfies the source and its value `0` is the optimum
+the reference interpreter computes. -/
+example (t : ℚ) (ht : 0 ≤ t) :
+    oneShot (fun _ => outBool) (exBool : Model (Ext ℚ)) t 0 = .ok solBool ∧
+    srcFeasible (exBool : Model (Ext ℚ)) (assignmentOf solBool) = true ∧
+    ∃ w, refSolve (exBool : Model (Ext ℚ)) = .optimal 0 w := by
+  have hc := exBool_compile0 (K := ℚ) (.fin t)
+  have hone : oneShot (fun _ => outBool) (exBool : Model (Ext ℚ)) t 0 = .ok solBool := by
+    rw [oneShot_ok hc]; exact wrapAuto_lmBool
+  obtain ⟨hsol, _⟩ := c03_default_solver_partial (solver := fun _ => outBool) ht hc exBool_frag exBool_declOK
+    (Or.inr exBool_noInt)
+    (asg := [[("x", 0), ("y", 0)], [("x", 1), ("y", 0)], [("x", 0), ("y", 1)], [("x", 1), ("y", 1)]])
+    (by rw [fieldExact_rat]; decide +kernel) solverSpec_lmBool
+  obtain ⟨hs, hv, _⟩ := hsol solBool hone rfl
+  obtain ⟨v, w, hr, hval⟩ := hv (by simp [Compose.exBool])
+  have : v = 0 := by simpa [solBool] using hval.symm
+  subst this
+  exact ⟨hone, hs, w, hr⟩
+
+end DefaultSolver
 end Composition
 
 end Rooc.Props.C03
